@@ -112,6 +112,7 @@ def main(argv=None):
     ap.add_argument("--only", default=None, help="run only the shard with this name (debug)")
     ap.add_argument("--jobs", type=int, default=int(os.environ.get("VERIF_JOBS", "16")))
     ap.add_argument("--inproc", action="store_true", help="run shards in-process (debug)")
+    ap.add_argument("--warm", action="store_true", help="compile-only pass: one shard per kind, no evidence, always exit 0")
     a = ap.parse_args(argv)
     pid = a.pid.upper()
     tier = a.tier
@@ -148,6 +149,16 @@ def main(argv=None):
     if a.only:
         specs = [s for s in specs if s["name"] == a.only]
     outdir = env.workdir("%s-%s" % (pid, tier))
+    if a.warm:
+        firsts = {}
+        for s in specs:
+            firsts.setdefault((s.get("kind", "default"), json.dumps(s.get("mode", {}), sort_keys=True)), s)
+        wdir = env.workdir("%s-warm" % pid)
+        with ThreadPoolExecutor(max_workers=max(1, len(firsts))) as ex:
+            rs = list(ex.map(lambda sp: run_one(pid, tier, seed, sp, wdir), firsts.values()))
+        for r in rs:
+            print("warm %s %s rc=%s %.0fs" % (pid, r["spec"]["name"], r["rc"], r["wall"]))
+        return 0
 
     # warm-up: the first shard of each execution mode runs alone first when the numba
     # cache for this tree has not been filled by this check before.
